@@ -3,6 +3,7 @@ import NutsModel.C05.OneTime
 import NutsModel.C05.Today
 import NutsModel.C05.Forms
 import NutsModel.C05.Vci
+import NutsModel.C05.Threads
 import NutsModel.Facts.C05
 open Lean Nuts.Drv Nuts.C05 Nuts
 
@@ -235,7 +236,8 @@ def formsLine (j : Json) : String :=
   let reqs := (jArr j "reqs").map (fun rj => (jNat rj "dt", parseForm rj))
   let r := runForms cfg.expInclusive cfg.ttl pk 0 st reqs
   let live := r.2.1.filterMap (fun (k, e) => if alive cfg.expInclusive r.2.2 e.exp then some (k.ns.name ++ "/" ++ k.id) else none)
-  s!"forms ans={String.intercalate ";" (r.1.map ansStr)} live=[{String.intercalate "," (live.toArray.qsort (· < ·)).toList}]"
+  let calls := (runFormCalls cfg pk 0 st reqs).map (String.intercalate ",")
+  s!"forms ans={String.intercalate ";" (r.1.map ansStr)} live=[{String.intercalate "," (live.toArray.qsort (· < ·)).toList}] calls=[{String.intercalate ";" calls}]"
 
 /-! OpenID4VCI request level (Vci.lean): flows and pre-authorized codes issued through the real store functions, token
     requests at the real handler, served one after the other -/
